@@ -65,7 +65,7 @@ func RunStress(seed int64, idx int, hostile bool) *Result {
 			delays[k] = 5 + rng.Intn(40)
 		}
 	}
-	o := &Opts{N: n, Weights: ws, TimerBase: time.Duration(2+rng.Intn(3)) * time.Millisecond, Drop: rng.Intn(7), Dup: rng.Intn(6), MaxDelayUs: rng.Intn(1500), LogDelays: delays, RotateCommittee: rng.Intn(2) == 0}
+	o := &Opts{N: n, Weights: ws, TimerBase: time.Duration(2+rng.Intn(3)) * time.Millisecond, Drop: rng.Intn(7), Dup: rng.Intn(6), MaxDelayUs: rng.Intn(1500), LogDelays: delays, RotateCommittee: rng.Intn(2) == 0, JudgeSeeds: true}
 	net := NewNet(seed, o)
 	desc := fmt.Sprintf("n=%d weights=%v timer=%v drop=%d%% dup=%d%% delay<=%dus logDelays=%d hostile=%v committee order by height=%v", n, ws, o.TimerBase, o.Drop, o.Dup, o.MaxDelayUs, len(delays), hostile, o.RotateCommittee)
 	baseG, _ := libGoroutines()
